@@ -16,8 +16,8 @@ PROPS = {
     ),
     'C03': dict(
         module='Hpfeeds.Props.C03', file='Hpfeeds/Props/C03.lean',
-        engines=[('broker', dict(prop='C03'))],
-        trusted=['asyncio transport/loop contract as implemented by harness FakeTransport/VirtualLoop (DESIGN.md 3c)', 'credential rows carry lists of str channels (list membership = string equality)'],
+        engines=[('broker', dict(prop='C03')), ('stores', dict())],
+        trusted=['asyncio transport/loop contract as implemented by harness FakeTransport/VirtualLoop (DESIGN.md 3c)', 'credential rows carry lists of str channels (list membership = string equality)', 'the broker runs on the memory store; the other stores enter through the stores engine: a store that answers an unconfigured identity with another identity\'s record lends that identity a name and a publish list (rule store-lends-identity)'],
     ),
     'C04': dict(
         module='Hpfeeds.Props.C04', file='Hpfeeds/Props/C04.lean',
